@@ -6,6 +6,12 @@ for p in mutants/*.patch; do
   b=$(basename $p .patch); id=$(echo $b | cut -d_ -f1 | tr a-z A-Z)
   log=$(./selftest $id $p 2>&1)
   res=$(echo "$log" | tail -1 | grep -o 'KILLED\|SURVIVED\|PATCH-FAILED')
+  if [ "$res" = "SURVIVED" ]; then   # the quick tier is a sample: try two more seeds before calling it a survivor
+    for s2 in 2 3; do
+      log=$(./selftest $id $p $s2 2>&1)
+      if echo "$log" | tail -1 | grep -q KILLED; then res="KILLED(seed $s2; survived seed 1)"; break; fi
+    done
+  fi
   first=$(echo "$log" | grep "clause=" | head -1 | sed 's/ msg=.*//' | cut -c1-100)
   echo -e "$b\t$id\t$res\t$first" >> $out
 done
